@@ -10,6 +10,7 @@ package forwarder
 //vf:assume C19-errors: log-http mode none / short-url / url; scenarios: CONNECT whose dial to the upstream proxy fails / whose upstream answers 407, 502, nothing, or garbage; the logger records every message with its arguments formatted by %v, except the values of the keys duration and id (clock and random trace id); martian's package-level debug log and the real binary's start-up dump are outside
 
 import (
+	"bytes"
 	"context"
 	"errors"
 	"fmt"
@@ -18,6 +19,7 @@ import (
 
 	"github.com/saucelabs/forwarder/httplog"
 	"github.com/saucelabs/forwarder/internal/martian"
+	martianlog "github.com/saucelabs/forwarder/internal/martian/log"
 	"github.com/saucelabs/forwarder/internal/vfrt"
 	"github.com/saucelabs/forwarder/log"
 )
@@ -173,4 +175,68 @@ func vfH_C19_config_errors() {
 	}
 	vfrt.Reach("config-error-duplicate")
 	vfrt.Assert(e1.Error() == e2.Error(), "config-errors/start-up-error-text-independent-of-the-password")
+}
+
+
+//vf:assume C19-debug-log: a CONNECT through a password-bearing upstream proxy (password in the URL or from the credentials table) that succeeds and carries 2 bytes each way; everything the connection loop logs through martian's package-level logger (debug level included) during this successful exchange is compared between two runs that differ only in the password (1..2 / 1..3 symbolic printable bytes); values of the keys duration and id are not compared
+
+type vfMartianRec struct{ lines *[]string }
+
+func (l vfMartianRec) rec(msg string, args []any) { vfRecLog{l.lines}.rec(msg, args) }
+func (l vfMartianRec) ErrorContext(ctx context.Context, msg string, args ...any) { l.rec(msg, args) }
+func (l vfMartianRec) WarnContext(ctx context.Context, msg string, args ...any)  { l.rec(msg, args) }
+func (l vfMartianRec) InfoContext(ctx context.Context, msg string, args ...any)  { l.rec(msg, args) }
+func (l vfMartianRec) DebugContext(ctx context.Context, msg string, args ...any) { l.rec(msg, args) }
+func (l vfMartianRec) With(args ...any) martianlog.StructuredLogger               { return l }
+
+func vfSuccessfulTunnelLog(password string, viaCredentials bool) []string {
+	var lines []string
+	martianlog.SetLogger(vfMartianRec{&lines})
+	defer martianlog.SetLogger(vfMartianRec{new([]string)})
+	cfg := HTTPProxyConfig{}
+	cfg.Name = "fw"
+	cfg.ProxyLocalhost = AllowProxyLocalhost
+	hp := &HTTPProxy{config: cfg, log: vfRecLog{&lines}, localhost: []string{"localhost"}, transport: &vfRoundTripper{}, metrics: &httpProxyMetrics{}}
+	if !vfrt.Symbolic() {
+		hp.metrics = newHTTPProxyMetrics(nil, "")
+	}
+	if viaCredentials {
+		hp.config.UpstreamProxy = &url.URL{Scheme: "http", Host: "proxy.internal:3128"}
+		cm, err := NewCredentialsMatcher([]*HostPortUser{{HostPort: HostPort{Host: "proxy.internal", Port: "3128"}, Userinfo: url.UserPassword("alice", password)}}, hp.log)
+		if err != nil {
+			vfrt.Unsupported("credentials matcher")
+		}
+		hp.creds = cm
+	} else {
+		hp.config.UpstreamProxy = &url.URL{Scheme: "http", Host: "proxy.internal:3128", User: url.UserPassword("alice", password)}
+	}
+	if err := hp.configureProxy(); err != nil {
+		vfrt.Unsupported("configureProxy failed")
+	}
+	upstream := martian.NewVfConn([]byte("HTTP/1.1 200 Connection established\r\n\r\nok"))
+	hp.proxy.DialContext = func(context.Context, string, string) (net.Conn, error) { return upstream, nil }
+	client := martian.NewVfConn([]byte("CONNECT example.com:443 HTTP/1.1\r\nHost: example.com:443\r\n\r\nhi"))
+	martian.VfServeConn(hp.proxy, client)
+	vfrt.Assert(bytes.HasPrefix(client.Out.Bytes(), []byte("HTTP/1.1 200")), "debug-log/tunnel-established")
+	return lines
+}
+
+//vf:harness property=C19 nopanic reach=debug-log-url-password,debug-log-table-password steps=12000000
+func vfH_C19_debug_log() {
+	p1, p2 := vfPassword("password-1"), vfPassword("password-2")
+	viaCreds := vfrt.Choice("password-from-credentials", 2) == 1
+	if viaCreds {
+		vfrt.Reach("debug-log-table-password")
+	} else {
+		vfrt.Reach("debug-log-url-password")
+	}
+	l1 := vfSuccessfulTunnelLog(p1, viaCreds)
+	l2 := vfSuccessfulTunnelLog(p2, viaCreds)
+	vfrt.Assert(len(l1) > 0, "debug-log/something-is-logged")
+	vfrt.Assert(len(l1) == len(l2), "debug-log/lines-independent-of-the-upstream-password")
+	if len(l1) == len(l2) {
+		for i := range l1 {
+			vfrt.Assert(l1[i] == l2[i], "debug-log/lines-independent-of-the-upstream-password")
+		}
+	}
 }
